@@ -155,11 +155,17 @@ class AbstractContext:
     @contextmanager
     def predefine_names(self, flow_scope, dct):
         predefined = self.predefined_names
+        # This can be nested for the same flow scope (e.g. two augmented
+        # assignments in one loop that depend on each other).
+        previous = predefined.get(flow_scope)
         predefined[flow_scope] = dct
         try:
             yield
         finally:
-            del predefined[flow_scope]
+            if previous is None:
+                del predefined[flow_scope]
+            else:
+                predefined[flow_scope] = previous
 
 
 class ValueContext(AbstractContext):
